@@ -909,7 +909,11 @@ fn gen_reply(rng: &mut Rng, cfg: &Cfg, run: &Run, srv: &mut Server, now: u64) ->
             if rng.chance(1, 6) { attrs.push(A::Nonce(srv.nonce + 50, *rng.pick(&[0u32, 1, 2, 3, 4, 5]))) } // duplicate nonce with other feature bits: the first one wins
         } else if code == 438 {
             srv.nonce += 1;
+            // RFC 8489 9.2.4: a 438 carries REALM and NONCE (and the algorithm list); a stale-nonce reply only renews the nonce,
+            // so a REALM or list that differs from the challenge's must not be picked up on its own (the key is derived per realm)
+            if rng.chance(1, 2) { attrs.push(A::Realm(if rng.chance(1, 2) { srv.realm } else { *rng.pick(&[1u32, 2, 3]) })) }
             if !rng.chance(1, 8) { attrs.push(A::Nonce(srv.nonce, *rng.pick(&[0u32, 1, 2, 6]))) }
+            if rng.chance(1, 4) { attrs.push(A::PwdAlgs(rng.pick(&[vec![Alg::Md5, Alg::Sha256], vec![Alg::Sha256], vec![Alg::Md5], vec![]]).clone())) }
         }
         if rng.chance(1, 2) {
             let k = pick_key(rng, cfg.mech, srv);
@@ -1063,7 +1067,10 @@ fn gen_lt_history(rng: &mut Rng, out: &mut Out, stats: &mut HashMap<String, u64>
             4 | 5 => { let change = rng.chance(1, 2); if change && rng.chance(1, 4) { srv.realm = 3 - srv.realm.min(2) } let a = challenge(rng, &mut srv, change); reply(&mut run, out, &mut now, id, 3, with_fp(a)) }
             6 | 7 => { // stale nonce, authenticated or not
                 srv.nonce += 1;
-                let a = vec![A::ErrorCode(438), A::Nonce(srv.nonce, *rng.pick(&[0u32, 1, 2, 3, 4]))];
+                let mut a = vec![A::ErrorCode(438)];
+                if rng.chance(1, 2) { a.push(A::Realm(if rng.chance(1, 2) { srv.realm } else { 3 - srv.realm.min(2) })) }
+                a.push(A::Nonce(srv.nonce, *rng.pick(&[0u32, 1, 2, 3, 4])));
+                if rng.chance(1, 4) { a.push(A::PwdAlgs(rng.pick(&[vec![Alg::Md5, Alg::Sha256], vec![Alg::Sha256], vec![Alg::Md5]]).clone())) }
                 let a = if rng.chance(1, 2) { let k = good(&srv); signed(&srv, a, k) } else { a };
                 reply(&mut run, out, &mut now, id, 3, with_fp(a))
             }
